@@ -39,7 +39,7 @@ def plan(tier, seed):
 def finalize(agg, tier):
     c = agg["counters"]
     out = []
-    need = ["zero_divisor_operands", "carry_chain_operands", "from_bytes_twice", "calls:AESNI_start_operation", "calls:AES_start_operation", "calls:ghash_clmul", "calls:ghash_portable",
+    need = ["zero_divisor_operands", "carry_chain_operands", "near_square_operands", "from_bytes_twice", "calls:AESNI_start_operation", "calls:AES_start_operation", "calls:ghash_clmul", "calls:ghash_portable",
             "int_ops_compared", "transcript_lines:gmp", "transcript_lines:custom", "transcript_lines:native"]
     for n in need:
         if not c.get(n):
@@ -457,6 +457,9 @@ def w_int_inproc(spec, ctx):
                 if op == "mult_modulo_bytes":
                     args[1] = v
                 ctx.count("carry_chain_operands")
+        if op in ("sqrt", "is_perfect_square") and rng.random() < 0.5:
+            args[0] = intops.near_square(rng)
+            ctx.count("near_square_operands")
         if op == "from_bytes" and rng.random() < 0.3:
             # the same caller-owned bytearray decoded twice: the second decoding must see the same octets
             order = args[1]
